@@ -94,6 +94,23 @@ VStepMap(e) == LET d == Docs[e.di] IN
        ELSE IF e.map # GetMap(e.step).ranges THEN "drift:GetMap"
        ELSE "ok"
 
+(* C04, single step: the library's inverse undoes the step exactly and its map is the inverse map *)
+VInvert(e) == LET d == Docs[e.di] IN
+  IF ~DocOKTab[e.di] \/ ~StepPre(d, e.step) THEN "skip:pre"
+  ELSE IF e.res.kind # "ok" THEN "skip:notapplied"
+  \* the single-step law is stated for replace, attribute, document-attribute and node-mark steps;
+  \* arbitrary replace-around and mark steps are covered through histories built by the API
+  ELSE IF e.step.type \in {"replaceAround", "addMark", "removeMark"} THEN "skip:outside-quantifier"
+  ELSE IF e.step.type = "attr" /\ (NodeTokAt(d, e.step.pos) = 0 \/ ~DeclaredAttr(d[NodeTokAt(d, e.step.pos)].t, e.step.attr)) THEN "skip:undeclared-attr"
+  ELSE IF e.step.type = "docAttr" /\ ~DeclaredAttr(TopType, e.step.attr) THEN "skip:undeclared-attr"
+  ELSE IF e.back.kind # "ok" THEN "bad:InverseDoesNotApply"
+  ELSE IF e.backdoc # d \/ e.backra # e.ra THEN "bad:InverseNotExact"
+  ELSE IF ~(\A p \in 0..Len(e.out) : \A a \in {-1, 1} :
+             MapPos([ranges |-> e.invmap, inv |-> FALSE], p, a) = MapPos([ranges |-> e.map, inv |-> TRUE], p, a))
+       THEN "bad:InverseMap"
+  ELSE IF e.inv # InvertStep(e.step, d, e.ra) THEN "drift:InvertStep"
+  ELSE "ok"
+
 ----------------------------------------------------------------------------
 (* C07: validity predicates.  A node is given as (type name, content tokens). *)
 NodeKids(e) == LET d == Docs[e.di] IN Kids(d, MatchArr(d), 1, Len(d))
@@ -145,6 +162,7 @@ Verdict(e) ==
     [] e.ev = "Replace" -> VReplace(e)
     [] e.ev = "Apply"   -> VApply(e)
     [] e.ev = "StepMap" -> VStepMap(e)
+    [] e.ev = "Invert" -> VInvert(e)
     [] e.ev = "Check" -> VCheck(e)
     [] e.ev = "ValidContent" -> VValidContent(e)
     [] e.ev = "CreateChecked" -> VCreateChecked(e)
